@@ -192,7 +192,7 @@ def bash_oracle(vecs, subjects):
 ALT_DEVS = {"deadbracket", "nocaseclass", "asciiclass", "groupscan", "slashbracket"}      # = ShGlob!AltDevs
 LOOSE_MALFORMED = {"unclosed-group"}   # undefined constructs on which bash itself is erratic
 TRIGGER_DEVS = {"rangeclass"}                 # deviations with a trigger class only (any difference)
-TRIGGER_ERR_DEVS = {"rangeclass", "dashfirst"}   # ... whose known symptom is a syntax error
+TRIGGER_ERR_DEVS = {"rangeclass", "dashfirst", "classdash"}   # ... whose known symptom is a syntax error
 ERR_DEVS = {"collating": "syntax", "openclass": "syntax", "negext": "negext"}   # deviation -> error kind it allows
 _DUMP = os.environ.get("VERIF_GLOB_DUMP")
 
@@ -364,8 +364,6 @@ def judge_interp(ck, v, ir, b, subjects):
     rec["diff_impl_only"] = show(im - sp, subj, extra)
     rec["diff_impl_missing"] = show(sp - im, subj, extra)
     alt = v.get("alt") or {}
-    if "unclosed-group" in v["malformed"]:
-        ck.violation("Dev_unclosedgroup_matcher", rec); dump("dev", rec); return
     if "negext" in v["devs"] and not v.get("negsimple") and not im:
         # internal/pattern.go: "Only a single !(...) group with fixed-string prefix and suffix is supported":
         # any other shape is an error there, which `case` turns into "no match"
@@ -383,6 +381,8 @@ def judge_interp(ck, v, ir, b, subjects):
         for d in trig:
             ck.violation("Dev_" + d, rec)
         dump("dev", rec); return
+    if "unclosed-group" in v["malformed"]:
+        ck.violation("Dev_unclosedgroup_matcher", rec); dump("dev", rec); return
     dump("idiffers", rec)
     ck.violation(vec_key("interp case differs:", v), rec)
 
